@@ -135,6 +135,28 @@ def to_trace(sc, out):
     return sorted(set(pids)), events
 
 
+def end_alternatives(out, events, i):
+    """other ways to name the failure a run ended with, for the `endRun` event at position i: when several payloads
+    failed together (trio raises them as one group, and the group leaves bare as soon as one member is a
+    BaseException) the LTS, which knows one failure per runner, is asked whether the run could have ended because
+    of any one of them - each with the result kind of its own outcome. What type left the run is the oracle's
+    business."""
+    ends = [e for e in out["log"] if e["kind"] == "accept-end"]
+    nth = sum(1 for x in events[:i + 1] if x[0] == "endRun") - 1
+    if nth < 0 or nth >= len(ends):
+        return []
+    outs = {x[1]: x[2] for x in events[:i] if x[0] == "bodyEnd"}
+    alts = []
+    for c in ends[nth].get("causes", []):
+        cp = c.get("pid", c.get("orphan_pid"))
+        if cp is None or cp not in outs:
+            continue
+        ev = ["endRun", "raisedRT" if outs[cp] in ("exc", "value") else "raisedBase", cp]
+        if ev != events[i] and ev not in alts:
+            alts.append(ev)
+    return alts
+
+
 def accept_traces(traces):
     """traces: list of (pids, events) -> list of driver answers"""
     reqs = ["RT " + json.dumps({"pids": p, "events": ev}) for p, ev in traces]
